@@ -71,4 +71,8 @@ type Case struct {
 	// Sessions (C06): expectations about piecewise processing, see c06.go.
 	Sessions []Session `json:"sessions,omitempty"`
 	Policy   string    `json:"policy,omitempty"` // documentation only
+	// Warm: execute the world this many times in the same process before the judged execution. Set by the
+	// driver when a violation needs a "warm" process (state that outlives Models, e.g. a package-level cache)
+	// and therefore does not show in a fresh process on the first execution.
+	Warm int `json:"warm,omitempty"`
 }
